@@ -152,6 +152,16 @@ class C06(core.PropBase):
     def cases(self, tier, seed):
         rng = random.Random(seed * 7919 + 6)
         n = 9000 if tier == "thorough" else 1000
+        # parameter spaces with nested combinations (associations inside associations / products) whose operand
+        # lengths depend on job parameters: balanced and off-by-one after substitution (the trees of the C14 check)
+        import c14
+        for _ in range(n // 5):
+            dc = c14.PROP.rand_dims(rng)
+            params = [tuple(p) for p in dc["params"]]
+            if rng.random() < 0.7:
+                params = [(nm, "INTP" if kind in ("INT", "INTX") and rng.random() < 0.7 else kind, ln) for nm, kind, ln in params]
+            t, jv = c14.skeleton(params, dc["s"])
+            yield {"doc": t, "envs": [], "vals": {k: v.value for k, v in jv.items()}}
         for i in range(n):
             doc = G.gen_job_template(rng, full=(i % 7 == 0))
             if i % 5 == 0:
@@ -191,7 +201,7 @@ class C06(core.PropBase):
             yield {"doc": doc, "envs": envs, "vals": vals}
 
     def rule(self, tier):
-        return ("accepted generated job templates x 0-3 environment templates (plain, or re-defining the job's parameters compatibly / incompatibly) x value maps "
+        return ("parameter spaces with nested combinations whose operand lengths come from job parameters (balanced / off by one); accepted generated job templates x 0-3 environment templates (plain, or re-defining the job's parameters compatibly / incompatibly) x value maps "
                 "mixing accepted values, omissions, unknown names and an adversarial string pool (non-numerals, NaN/Infinity, -0, empty, 300 digits, brace and "
                 "reference-looking text, range / combination-looking text, control characters, non-ASCII digits). Observables: exception family of "
                 "preprocess_job_parameters (client and server mode) and create_job, success of full iteration and dependency graph / topological sort on returned "
